@@ -283,6 +283,7 @@ inductive Op (D : Type)
   | drop (uid : Str)          -- `[]` = all
   | reopen (mode : Mode)
   | observe                   -- reading `completed` / `not_completed` (fills empty caches)
+  | unlock                    -- SQLite store only (`unlock()`); nothing on a directory store
 
 def step (cfg : Cfg) (H : D → D) (s : Dir D) : Op D → Dir D × Res
   | .write uid d => write cfg H s uid d
@@ -291,6 +292,7 @@ def step (cfg : Cfg) (H : D → D) (s : Dir D) : Op D → Dir D × Res
   | .drop uid => dropNc cfg s uid
   | .reopen m => (reopen s m, .done none)
   | .observe => (populate s, .done none)
+  | .unlock => (s, .done none)
 
 def run (cfg : Cfg) (H : D → D) (s : Dir D) : List (Op D) → Dir D
   | [] => s
